@@ -8,6 +8,7 @@
 #include <string>
 #include <vector>
 #include <sstream>
+#include <locale>
 #include <iostream>
 #include <unistd.h>
 #include <sys/wait.h>
@@ -150,8 +151,13 @@ static void child_import(std::vector<int> codes, int tr, Cur c, int outfd) {
 int main() {
     std::string line;
     while (std::getline(std::cin, line)) {
-        std::istringstream is(line); std::string op; if (!(is >> op)) { puts(""); fflush(stdout); continue; }
+        std::istringstream is(line); is.imbue(std::locale::classic()); std::string op; if (!(is >> op)) { puts(""); fflush(stdout); continue; }
         V a; ll x; while (is >> x) a.push_back(x);
+        if (op == "setlocale") {   // 1: a global C++ locale with digit grouping and a decimal comma (custom facets, no system locale needed); 0: classic
+            struct Punct : std::numpunct<char> { char do_decimal_point() const override { return ','; } char do_thousands_sep() const override { return '.'; } std::string do_grouping() const override { return "\3"; } };
+            if (!a.empty() && a[0] == 1) std::locale::global(std::locale(std::locale::classic(), new Punct)); else std::locale::global(std::locale::classic());
+            puts("ok"); fflush(stdout); continue;
+        }
         if (op == "cexp") {
             std::string b = do_export((int) a[0], (int) a[1], Cur(a, 2));
             std::string o; for (unsigned char ch : b) pr(o, ch); puts(o.c_str()); fflush(stdout);
